@@ -19,6 +19,7 @@ PROPERTY = 'C10'
 LEVEL = 'proof'
 FUNCTIONS = ['emd.spectra.hilberthuang', 'emd.spectra.hilberthuang_1d', 'emd.spectra.define_hist_bins', 'emd.support.ensure_2d (inlined)', 'emd.support.ensure_equal_dims (inlined)']
 ASSUMPTIONS = [
+    'assumed numpy contract: x.astype(t, copy=False) is x itself when the dtype already matches (an alias: writes reach the caller), a new array otherwise (cross-checked natively); frame condition on every unit',
     'floats are mathematical reals (NaN as a separate flag); numpy ints unbounded',
     'assumed numpy contracts (cross-checked natively, not proved): digitize (increasing bins), tile, arange, reshape(-1) in C order, c_, any(axis=1), boolean-mask compression = np.where gather, sum(x[mask]) = indicator sum, linspace',
     'assumed scipy contract: coo_matrix((data,(row,col)), shape) sums duplicate coordinates and toarray() is its dense form (the stub records the triples; nothing of scipy.sparse is executed symbolically)',
